@@ -43,6 +43,19 @@ KNOWN_CLASSES = {
 }
 
 PROPS = {
+    "C18": {
+        "lean_modules": ["TableauVerif.Props.C18"],
+        "oracles": ["c18.prep", "c18.incr"],
+        "streams": [
+            ("corr.protogen.prepareOutdir", 3000, 100000),
+            ("corr.xfs.clean", 30000, 400000),
+            ("e2e.C18.incremental", 20, 300, 5),
+        ],
+        "assumptions": [
+            "file systems are finite maps from paths to bytes; os.Remove / WriteFile are trusted to implement the map operations",
+            "modelled: path.Clean on slash paths and prepareOutdir's removal rule over a directory listing; the incremental-equals-full half is decided by the end-to-end stream (real GenProto/GenConf with workbook arguments vs. a fresh full run, recursive sha256 snapshots of input and output trees), not by a theorem yet (partial)",
+        ],
+    },
     "C06": {
         "lean_modules": ["TableauVerif.Props.C06"],
         "oracles": ["c06.rt"],
